@@ -43,6 +43,7 @@ thread_queue_acquire_spinlock_if_not_empty(thread_queue_t *p_queue,
         /* Lock acquisition failed.  Check the size. */
         while (1) {
             if (ABTD_atomic_acquire_load_int(&p_queue->is_empty)) {
+                ABTV_REACH("pool.pop_gives_up_became_empty");
                 /* The pool becomes empty.  Lock is not taken. */
                 return 1;
             } else if (!ABTD_spinlock_is_locked(p_lock)) {
